@@ -489,6 +489,7 @@ qb_vsnprintf_serialize(char *serialize, size_t max_len,
 	char *qb_xc;
 	int type_long = QB_FALSE;
 	int type_longlong = QB_FALSE;
+	int type_longdouble = QB_FALSE;
 	size_t sformat_length = 0;
 	int sformat_precision = QB_FALSE;
 	uint32_t location = my_strlcpy(serialize, fmt, max_len) + 1;
@@ -506,6 +507,7 @@ qb_vsnprintf_serialize(char *serialize, size_t max_len,
 	for (;;) {
 		type_long = QB_FALSE;
 		type_longlong = QB_FALSE;
+		type_longdouble = QB_FALSE;
 		sformat_length = 0;
 		sformat_precision = QB_FALSE;
 		p = strchrnul((const char *)format, '%');
@@ -553,6 +555,13 @@ reprocess:
 			format++;
 			goto reprocess;
 		}
+		case 'h': /* short and char arguments arrive promoted to int */
+			format++;
+			goto reprocess;
+		case 'L':
+			format++;
+			type_longdouble = QB_TRUE;
+			goto reprocess;
 		case 'l':
 			format++;
 			type_long = QB_TRUE;
@@ -637,7 +646,18 @@ reprocess:
 		case 'G':
 		case 'a':
 		case 'A':
-			{
+			if (type_longdouble) {
+				long double arg_ldouble;
+
+				if (location + sizeof (long double) > max_len) {
+					return max_len;
+				}
+				arg_ldouble = va_arg(ap, long double);
+				memcpy (&serialize[location], &arg_ldouble, sizeof (long double));
+				location += sizeof(long double);
+				format++;
+				break;
+			} else {
 			double arg_double;
 
 			if (location + sizeof (double) > max_len) {
@@ -731,6 +751,7 @@ qb_vsnprintf_deserialize_n(char *string, size_t str_len, const char *buf, size_t
 	const char *fmt_end;
 	int type_long = QB_FALSE;
 	int type_longlong = QB_FALSE;
+	int type_longdouble = QB_FALSE;
 	int len;
 
 	if (str_len == 0) {
@@ -746,6 +767,7 @@ qb_vsnprintf_deserialize_n(char *string, size_t str_len, const char *buf, size_t
 	for (;;) {
 		type_long = QB_FALSE;
 		type_longlong = QB_FALSE;
+		type_longdouble = QB_FALSE;
 		p = strchrnul((const char *)format, '%');
 		if (*p == '\0') {
 			return my_strlcat(string, format, str_len) + 1;
@@ -808,6 +830,17 @@ reprocess:
 			format++;
 			goto reprocess;
 		}
+		case 'h':
+			DS_FMT_ROOM();
+			fmt[fmt_pos++] = *format;
+			format++;
+			goto reprocess;
+		case 'L':
+			DS_FMT_ROOM();
+			fmt[fmt_pos++] = *format;
+			format++;
+			type_longdouble = QB_TRUE;
+			goto reprocess;
 		case 'l':
 			DS_FMT_ROOM();
 			fmt[fmt_pos++] = *format;
@@ -901,7 +934,19 @@ reprocess:
 		case 'G':
 		case 'a':
 		case 'A':
-			{
+			if (type_longdouble) {
+				long double arg_ldouble;
+
+				DS_FMT_ROOM();
+				fmt[fmt_pos++] = *format;
+				fmt[fmt_pos++] = '\0';
+				DS_NEED(sizeof(long double));
+				memcpy(&arg_ldouble, &buf[data_pos], sizeof(long double));
+				DS_ADVANCE(snprintf(&string[location], str_len - location, fmt, arg_ldouble));
+				data_pos += sizeof(long double);
+				format++;
+				break;
+			} else {
 			double arg_double;
 
 			DS_FMT_ROOM();
@@ -933,7 +978,7 @@ reprocess:
 			DS_FMT_ROOM();
 			fmt[fmt_pos++] = *format;
 			fmt[fmt_pos++] = '\0';
-			if (type_long || type_longlong) {
+			if (type_long || type_longlong || type_longdouble) {
 				goto truncated;	/* "%ls" would read wide characters */
 			}
 			if (data_pos >= buf_len ||
